@@ -2234,6 +2234,11 @@ class BaseInterpreter(Generic[TContext, TEvent]):
                     data=self._resolve_output(final_state),
                     src=ancestor.id,
                 )
+                # 🔁 A done event raised while another event is being processed
+                #    is part of that event's chain: let the engine count it so
+                #    an `onDone` that re-completes its own state is bounded
+                #    like any other self-feeding chain.
+                self._note_chained_event()
                 await self.send(done_event)
                 # Per SCXML, only fire for the first completed ancestor.
                 return
@@ -2250,6 +2255,12 @@ class BaseInterpreter(Generic[TContext, TEvent]):
                 self._complete(self._resolve_output_value(machine_output))
             else:
                 self._complete(self._resolve_output(final_state))
+
+    def _note_chained_event(self) -> None:
+        """Hook: an event is about to be queued by the engine itself.
+
+        Engines that bound self-feeding chains override this to count it.
+        """
 
     def _resolve_output_value(self, output: Any) -> Any:
         """Resolves an `output` declaration to a concrete value.
